@@ -129,16 +129,25 @@ pub fn generate(rng: &mut Rng, n: usize, _thorough: bool) -> Vec<Value> {
             }
         }
         let nops = rng.below(9) as usize;
-        let ops: Vec<Value> = (0..nops)
-            .map(|_| {
-                let app = rng.pick(&pool).clone();
-                match rng.below(3) {
-                    0 => json!({"op":"uc","app":app}),
-                    1 => json!({"op":"ping","app":app}),
-                    _ => json!({"op":"event","app":app,"event":rand_event_json(rng)}),
+        // one event op in three repeats an earlier (app, event) pair exactly: events are a list, not a set
+        let mut said: Vec<Value> = vec![];
+        let mut ops: Vec<Value> = vec![];
+        for _ in 0..nops {
+            let app = rng.pick(&pool).clone();
+            ops.push(match rng.below(3) {
+                0 => json!({"op":"uc","app":app}),
+                1 => json!({"op":"ping","app":app}),
+                _ => {
+                    if !said.is_empty() && rng.chance(1, 3) {
+                        rng.pick(&said).clone()
+                    } else {
+                        let o = json!({"op":"event","app":app,"event":rand_event_json(rng)});
+                        said.push(o.clone());
+                        o
+                    }
                 }
-            })
-            .collect();
+            });
+        }
         v.push(json!({"kind":"build","config":rand_config(rng, false),"params":rand_params_json(rng),"ops":ops,
                       "reqid":rng.chance(3,4),"sessid":rng.chance(3,4)}));
     }
